@@ -231,27 +231,37 @@ impl Memfs {
     pub(crate) fn _add(&self, guard: &mut MemfsGuard, entry: MemfsEntry) -> RvResult<PathBuf> {
         let path = entry.path_buf();
 
-        // Skip creation of root as `new` will take care of that
+        // Skip creation of root as `new` will take care of that, but root is only ever a directory
         if path == PathBuf::from(Component::RootDir.to_string()?) {
+            if entry.is_symlink() {
+                return Err(PathError::is_not_symlink(&path).into());
+            } else if entry.is_file() {
+                return Err(PathError::is_not_file(&path).into());
+            }
             return Ok(path);
         }
 
-        // Validate path components
+        // Validate path components, a link to a directory can't hold entries of its own
         let dir = path.dir()?;
         if let Some(entry) = guard.get_entry(&dir) {
-            if !entry.is_dir() {
+            if !entry.is_dir() || entry.is_symlink() {
                 return Err(PathError::is_not_dir(dir).into());
             }
         } else {
             return Err(PathError::does_not_exist(dir).into());
         }
 
-        // Validate the path itself
+        // Validate the path itself, links are never mistaken for what they point to
         if let Some(x) = guard.get_entry(&path) {
-            if entry.is_file() && !x.is_file() {
+            if entry.is_symlink() != x.is_symlink() {
+                return Err(match (entry.is_symlink(), entry.is_file()) {
+                    (true, _) => PathError::is_not_symlink(&path),
+                    (false, true) => PathError::is_not_file(&path),
+                    (false, false) => PathError::is_not_dir(&path),
+                }
+                .into());
+            } else if entry.is_file() && !x.is_file() {
                 return Err(PathError::is_not_file(&path).into());
-            } else if entry.is_symlink() && !x.is_symlink() {
-                return Err(PathError::is_not_symlink(&path).into());
             } else if entry.is_dir() && !x.is_dir() {
                 return Err(PathError::is_not_dir(&path).into());
             }
